@@ -15,7 +15,7 @@ import (
 func init() { register("C15", checkC15) }
 
 func checkC15(r *core.Run) {
-	r.Explanation = "C15 (structural clauses only): eligibility — the only two producers of selectable nodes return/append a node only on paths that passed the capacity, status-mask, reputation (and role / not-ignored) tests; RandomSP builds its result only from those two producers, the ignore filter and index selection; distinctness — an index is appended only if no earlier index equals it; under-replication — GetSps succeeds only with 0 < Replica <= number selected; ignore-list completeness — at every call of RandomSP the ignore list is nil only where the order has no shards yet, otherwise it accumulates the provider of every shard of the order (or every existing holder). Uniformity, seeds and the count bound as arithmetic are not decided (termination of RandomIndex is C02)."
+	r.Explanation = "C15 (structural clauses only): eligibility — the only two producers of selectable nodes return/append a node only on paths that passed the capacity, status-mask, reputation (and role / not-ignored) tests; RandomSP builds its result only from those two producers, the ignore filter and index selection; distinctness — an index is appended only if no earlier index equals it; under-replication — GetSps succeeds only with 0 < Replica <= number selected; ignore-list completeness — at every call of RandomSP the ignore list is nil only where the order has no shards yet, otherwise it accumulates the provider of every shard of the order (or every existing holder). Uniformity, seeds and the count bound as arithmetic are not decided (termination of RandomIndex is C02). No loop of module node splices the element at its upward-counting index out of a list and advances (T-splice-skip)."
 	r.Rule("G-elig-1: GetAllNodesByStatusAndReputationAndRole appends n <= pledge found AND free >= size AND status mask AND reputation >= AND role ==")
 	r.Rule("G-elig-2: GetNextSuperNodes returns a node <= not in ignore list AND pledge found AND free >= size AND status mask AND reputation >=")
 	r.Rule("G-distinct: RandomIndex appends rs only if no element of idx equals rs (must-avoid)")
